@@ -131,6 +131,8 @@ def random_call(rng, op, nmax=10):
          "over_bare": nk == 1 and rng.random() < 0.5, "args": args, "apply": ap}
     if ap is None and rng.random() < 0.3:
         c["reuse_args"] = True                               # see _call_on: the argument objects were used before
+    if rng.random() < 0.3:
+        c["prior_named"] = True                              # see _call_on: an earlier call used custom functions named like built-ins
     return c
 
 
@@ -457,6 +459,16 @@ def _call_on(t, names, pre, case, method, log, obs=None):
             res["apply"].append([name, snap, fid])
         kwargs["apply"] = d
     ov = over[0] if (case.get("over_bare") and len(over) == 1) else over
+    if obs is not None and case.get("prior_named"):
+        # the program called the same method before, on another table, with custom functions NAMED like the built-in
+        # aggregations: a call computes its columns from its own arguments, whatever was asked for earlier under those names
+        try:
+            from serif import Table
+            t0 = Table({"g": [1, 1, 2], "u": [None, 5, 6]})
+            getattr(t0, method)(over="g", apply={nm: ("u", (lambda vals: len(vals) + 100)) for nm in
+                                                 ("count", "sum", "min", "max", "mean", "stdev")})
+        except Exception:                                    # noqa: BLE001
+            pass
     if obs is not None:
         obs["res"] = res
         if case.get("reuse_args") and case["apply"] is None:
